@@ -29,7 +29,10 @@ import (
 type Op struct {
 	// K: edit | cycle | pause | restart
 	K string `json:"k"`
-	// edit: write remove mkdir rename chmod link
+	// edit: write remove mkdir rename chmod link replace
+	// (replace: the file is replaced atomically by a new file - written
+	// elsewhere, given the old modification time and mode, renamed over the
+	// target - as editors, cp -p, rsync -t and restores from backup do)
 	Edit    string `json:"edit,omitempty"`
 	Side    string `json:"side,omitempty"` // alpha | beta | both
 	Name    string `json:"name,omitempty"`
@@ -70,24 +73,25 @@ type cycleRec struct {
 }
 
 type environment struct {
-	mu      sync.Mutex
-	cond    *sync.Cond
-	script  *Script
-	dir     string
-	alpha   string
-	beta    string
-	manager *synchronization.Manager
-	session string
-	sel     *selection.Selection
-	polls   int
-	cur     *cycleRec
-	inject  string
-	cycles  []*cycleRec
-	bg      sync.WaitGroup
-	tags    map[string]bool
-	log     []string
-	fresh   bool
-	digests map[string]string
+	mu       sync.Mutex
+	cond     *sync.Cond
+	script   *Script
+	dir      string
+	alpha    string
+	beta     string
+	manager  *synchronization.Manager
+	session  string
+	sel      *selection.Selection
+	polls    int
+	cur      *cycleRec
+	inject   string
+	cycles   []*cycleRec
+	bg       sync.WaitGroup
+	tags     map[string]bool
+	log      []string
+	fresh    bool
+	digests  map[string]string
+	tmpCount int
 }
 
 func (env *environment) note(format string, a ...any) {
@@ -544,6 +548,23 @@ func (env *environment) edit(op Op) {
 			os.RemoveAll(p)
 			if err = os.WriteFile(p, []byte(op.Content), mode); err == nil {
 				err = os.Chmod(p, mode)
+			}
+		case "replace":
+			fi, e := os.Lstat(p)
+			if e != nil || !fi.Mode().IsRegular() {
+				clearWay(root, op.Name)
+				os.RemoveAll(p)
+				err = os.WriteFile(p, []byte(op.Content), 0o644)
+				break
+			}
+			env.tmpCount++
+			tmp := filepath.Join(env.dir, fmt.Sprintf("replacement-%d", env.tmpCount))
+			if err = os.WriteFile(tmp, []byte(op.Content), fi.Mode().Perm()); err == nil {
+				if err = os.Chmod(tmp, fi.Mode().Perm()); err == nil {
+					if err = os.Chtimes(tmp, fi.ModTime(), fi.ModTime()); err == nil {
+						err = os.Rename(tmp, p)
+					}
+				}
 			}
 		case "remove":
 			err = os.RemoveAll(p)
